@@ -393,3 +393,120 @@ def fs7(P, C):
     szcall = [j for (j, nm, m) in rcalls if nm == "ffgisz" and vid is not None and var_id(rf, rf.args(j)[2]) == vid]
     C.ob("FS-7", "read_fits_core", "count:extents", guard and bool(szcall) and buf == "(&extents[0][0])", rf.loc(i),
          "the extents are read only when the image holds exactly 2*ndim values (size from fits_get_img_size; otherwise defaults are made up)")
+
+
+# --------------------------------------------------------------------------
+# FS-8: a name formatted with an index and the data moved under that name use the same index
+# --------------------------------------------------------------------------
+def _format_index_vars(f):
+    """stream / buffer variable -> [(position node, decl id of the variable formatted into the name)]"""
+    out = {}
+    for i, cal in f.calls():
+        if cal and cal["name"] == "snprintf":
+            a = f.args(i)
+            dst = f.strip(a[0])
+            if f.k(dst) == "DeclRefExpr" and len(a) == 4:
+                v = f.strip(a[3])
+                if f.k(v) == "DeclRefExpr":
+                    out.setdefault(f.nodes[dst]["decl"]["id"], []).append((i, f.nodes[v]["decl"]["id"]))
+    for i in f.walk():
+        n = f.nodes[i]
+        if n["k"] == "CXXOperatorCallExpr" and n.get("opcall") == "<<":
+            par = f.parent[i]
+            while par >= 0 and f.k(par) in core.IMPLICIT_ONLY:
+                par = f.parent[par]
+            if par >= 0 and f.k(par) == "CXXOperatorCallExpr" and f.nodes[par].get("opcall") == "<<":
+                continue
+            parts, x = [], i
+            while f.k(x) == "CXXOperatorCallExpr" and f.nodes[x].get("opcall") == "<<":
+                parts.insert(0, f.nodes[x]["ch"][2])
+                x = f.strip(f.nodes[x]["ch"][1])
+            if f.k(x) == "DeclRefExpr" and "ostringstream" in f.nodes[x]["decl"]["type"]:
+                vs = [f.nodes[f.strip(p)]["decl"]["id"] for p in parts if f.k(f.strip(p)) == "DeclRefExpr"]
+                if len(vs) == 1:
+                    out.setdefault(f.nodes[x]["decl"]["id"], []).append((i, vs[0]))
+    return out
+
+
+def _name_index(f, arg, fiv):
+    """decl id of the variable formatted into the name passed as `arg` (nearest preceding format of the stream / buffer it mentions)"""
+    for x in f.walk(arg):
+        if f.k(x) == "DeclRefExpr" and f.nodes[x]["decl"]["id"] in fiv:
+            c = [(k, v) for (k, v) in fiv[f.nodes[x]["decl"]["id"]] if k < arg]
+            if c:
+                return c[-1][1]
+    return None
+
+
+def _data_index(f, arg):
+    """decl id of the subscript variable of the data argument: &order[i], knots[i], &periods[i]"""
+    x = f.strip(arg)
+    if f.k(x) == "UnaryOperator" and f.nodes[x]["op"] == "&":
+        x = f.strip(f.nodes[x]["ch"][0])
+    while f.k(x) in ("ArraySubscriptExpr", "CXXOperatorCallExpr"):
+        ch = f.nodes[x]["ch"]
+        idx = f.strip(ch[-1])
+        base = f.strip(ch[-2])
+        if f.k(idx) == "DeclRefExpr":
+            return f.nodes[idx]["decl"]["id"], f.render(x).replace("this->", "")
+        if f.nodes[idx].get("cv") is not None:
+            x = base
+            continue
+        return ("expr", f.render(idx)), f.render(x).replace("this->", "")
+    return None, f.render(x)
+
+
+def fs8(P, C, floor=7):
+    C.rule("FS-8", "wherever a keyword or extension name is formatted with an index (ORDERn, PERIODn, KNOTSn) the value moved under that name is "
+           "the element with the same index: in the writer, the reader, readOrder and estimateMemory the variable formatted into the name is the "
+           "variable that subscripts the data argument (or, for an HDU move, the data accesses up to the next move)", floor=floor)
+    fns = [("write_fits_core", [g for g in P.fns("write_fits_core") if g.unit == "driver"]),
+           ("read_fits_core", [g for g in P.fns("read_fits_core") if g.unit == "driver"]),
+           ("readOrder", [g for g in P.fns("readOrder") if g.file.endswith("fitsio.cpp")]),
+           ("estimateMemory", [g for g in P.fns("estimateMemory") if g.unit == "driver"])]
+    for label, gs in fns:
+        if not gs:
+            raise core.AnalysisBroken("FS-8: %s not found" % label)
+        f = gs[0]
+        fiv = _format_index_vars(f)
+        calls, fmts = cfits_calls(f)
+        # data argument position per cfitsio routine
+        DATA = {"ffgky": 3, "ffpky": 3, "ffuky": 3, "ffgpxv": 5, "ffppx": 4, "ffgisz": 3}
+        cur = None          # index variable of the current indexed HDU (after fits_movnam_hdu / EXTNAME)
+        for (i, nm, macro) in sorted(calls, key=lambda c: f.nodes[c[0]]["loc"]):
+            a = f.args(i)
+            if nm == "ffmnhd":
+                cur = _name_index(f, a[2], fiv)
+                continue
+            if nm == "ffcrim":
+                cur = None
+                continue
+            if nm in ("ffpky", "ffuky") and name_of(f, a[2], fmts) == "EXTNAME":
+                cur = _name_index(f, a[3], fiv)
+                # the pixel data of this HDU was written just before the name in this writer: checked below through `pending`
+                continue
+            if nm not in DATA or len(a) <= DATA[nm]:
+                continue
+            key_idx = _name_index(f, a[2], fiv) if nm in ("ffgky", "ffpky", "ffuky") else None
+            want = key_idx if key_idx is not None else (cur if nm in ("ffgpxv", "ffgisz") else None)
+            if want is None:
+                continue
+            got, txt = _data_index(f, a[DATA[nm]])
+            if got is None and nm == "ffgisz":
+                continue            # size read into a scalar (estimateMemory): nothing indexed
+            ok = got == want
+            C.ob("FS-8", label, "%s:%s" % (macro, txt.replace(" ", "")), ok, f.loc(i),
+                 "name formatted with %s, data %s indexed by %s" % (f.var_name(want), txt, f.var_name(got) if isinstance(got, int) else got))
+        # writer: pixel writes of the per-dimension HDUs precede their EXTNAME; check the pairing inside each loop body
+        if label == "write_fits_core":
+            for (i, nm, macro) in calls:
+                if nm == "ffppx":
+                    loop = next((x for x in f.ancestors(i) if f.k(x) == "ForStmt"), None)
+                    if loop is None:
+                        continue
+                    names = [(j, _name_index(f, f.args(j)[3], fiv)) for (j, n2, _m) in calls if n2 in ("ffpky", "ffuky") and loop in set(f.ancestors(j))
+                             and name_of(f, f.args(j)[2], fmts) == "EXTNAME"]
+                    got, txt = _data_index(f, f.args(i)[4])
+                    ok = len(names) == 1 and names[0][1] is not None and got == names[0][1]
+                    C.ob("FS-8", label, "fits_write_pix:%s" % txt.replace(" ", ""), ok, f.loc(i),
+                         "extension named with %s holds %s" % (f.var_name(names[0][1]) if names and names[0][1] is not None else "?", txt))
